@@ -101,8 +101,10 @@ def run(facts, rep, tier):
         if not rep.anchor("C14.L", "%s|outer vector of three per-party tuples" % label, outer):
             continue
         M = []
+        D = []
         for p, ikey in enumerate(outer[1]):
             row = []
+            rowdraws = []
             for s, op in enumerate(arrays[ikey]):
                 ip = fl._index_path(op) if op[0] != "k" else None
                 src = None
@@ -116,8 +118,27 @@ def run(facts, rep, tier):
                 draws = {o for o in deps if o[0] == "call" and o[2] in PRNG_DRAWS}
                 cls = "shares" if params else ("junk" if draws else "other")
                 row.append((cls, idx, b.var_name(src) if src is not None else None))
+                # the draws behind the element actually placed in the slot (not the whole source array)
+                rowdraws.append((cls, {o for o in fd.origins(op, ikey) if o[0] == "call" and o[2] in PRNG_DRAWS}))
             M.append(row)
+            D.append(rowdraws)
         matrices[label] = M
+        share_draws = set()
+        for rd in D:
+            for cls, dr in rd:
+                if cls == "shares":
+                    share_draws |= dr
+        for p in range(3):
+            for s_, (cls, dr) in enumerate(D[p]):
+                if cls != "junk":
+                    continue
+                common = dr & share_draws
+                rep.ob("C14.L", "%s|party%d.slot%d|junk-unrelated" % (label, p, s_), not common,
+                       "the junk in party %d's slot %d comes from PRNG draws of its own (%d), none of which feeds a share" % (p, s_, len(dr))
+                       if not common else
+                       "the junk in party %d's slot %d is computed from the same random draws as the shares (%s): it is not "
+                       "unrelated - together with a share the party holds it can cancel the mask" % (
+                           p, s_, sorted(b.loc(o[1]).split(":")[-1] for o in common)), b.loc(outer[0][0]))
         for p in range(3):
             for s in range(3):
                 cls, idx, vn = M[p][s]
